@@ -53,7 +53,7 @@ class Prop(BaseProp):
             "integral / avrg over W6 intervals (ends equal to event times, between events, lists of intervals, None) and "
             "get_plottable_data(k) for k=0..3; all compared with an exact event-map model. distinct = (event "
             "interleaving word of the pool, operation sequence)")
-    budget = {"quick": 1400, "thorough": 40000}
+    budget = {"quick": 2800, "thorough": 800000}
     must_see = ["tail:op1_tail_longer", "tail:op2_tail_longer", "tail:end_together", "both_operands_without_events",
                 "one_operand_without_events", "event_on_t_start", "event_on_t_end", "interval_end_on_event",
                 "interval_without_events", "interval_list", "plottable_k>0", "shared_event_time", "copy_op"]
